@@ -55,6 +55,42 @@ def digest_compare(c):
     c["extra"]["profile_pairs_compared"] = pairs
 
 
+def miri_pre(c, many_seeds=0, timeout=3400):
+    """thorough only: run this property's `--mode miri` workload under the undefined-behaviour interpreter."""
+    import os, subprocess, time
+    if c["tier"] != "thorough":
+        c["extra"].setdefault("sanitizers", "Miri run only in the thorough tier (minutes)")
+        return
+    H = os.path.join(c["root"], "harness")
+    t0 = time.time()
+    flags = "-Zmiri-disable-isolation" + (" -Zmiri-many-seeds=0..%d" % many_seeds if many_seeds else "")
+    logf = os.path.join(c["wdir"], "miri.jsonl")
+    env = dict(c["cargo_env"], MIRIFLAGS=flags, CARGO_TARGET_DIR=os.path.join(H, "target-miri"))
+    try:
+        p = subprocess.run(["cargo", "+nightly", "miri", "run", "--offline", "--bin", "pvmon", "--", c["prop"], "--mode", "miri", "--seed", str(c["seed"]), "--log", logf, "--cap-mb", "4096"],
+                           cwd=H, env=env, stdout=subprocess.PIPE, stderr=subprocess.STDOUT, text=True, timeout=timeout)
+    except subprocess.TimeoutExpired:
+        c["agg"].inconclusive.append("miri run exceeded %d s" % timeout)
+        c["extra"]["sanitizers"] = {"miri": "timed out (inconclusive)"}
+        return
+    c["agg"].feed(logf, "miri")
+    out = p.stdout
+    res = {"flags": flags, "wall_s": round(time.time() - t0, 1)}
+    if "Undefined Behavior" in out or "data race" in out.lower():
+        c["agg"].add_violation(c["prop"], "miri|undefined-behaviour-or-race", out[out.find("error"):][:1500])
+        res["result"] = "reported a problem"
+    elif p.returncode != 0:
+        c["agg"].inconclusive.append("miri run exited %d: %s" % (p.returncode, out[-500:]))
+        res["result"] = "did not complete (inconclusive)"
+    else:
+        res["result"] = "clean"
+    san = c["extra"].get("sanitizers")
+    if not isinstance(san, dict):
+        san = {}
+    san["miri"] = res
+    c["extra"]["sanitizers"] = san
+
+
 def c14_pre(c):
     """thorough: build the harness under ThreadSanitizer, run the concurrent workload under it and under Miri."""
     import os, subprocess, time
@@ -166,6 +202,7 @@ def c14_post(c):
 
 PROPS = {
     "C01": dict(
+        pre=miri_pre,
         jobs=lambda tier: both(8, None, stall_s=40, wall_s=900 if tier == "quick" else 7200),
         eval_keys=["steps"],
         rule="(a) every registered instruction single-stepped on K generated states (boundary / small / mixed operand pools, random "
@@ -267,6 +304,7 @@ PROPS = {
         floors={"all registered instructions": lambda a, t: set_n(a, "instructions") >= N_REGISTERED},
     ),
     "C16": dict(
+        pre=miri_pre,
         jobs=lambda tier: [shards("release", 12), shards("debug", 4)],
         eval_keys=["ops"],
         exhaustive=True,
@@ -278,6 +316,7 @@ PROPS = {
         floors={"histories": lambda a, t: a.counts.get("histories", 0) >= 100000},
     ),
     "C17": dict(
+        pre=miri_pre,
         jobs=lambda tier: [shards("release", 8), shards("debug", 4)],
         eval_keys=["ops", "io_steps"],
         exhaustive=True,
